@@ -80,6 +80,7 @@ type event struct {
 	Dt       int    `json:"dt,omitempty"`
 	K        int    `json:"n,omitempty"`     // ordinal of a session (inval, lne); 99 = an id never issued
 	Valid    int    `json:"valid,omitempty"` // announce: index into validCatalogue
+	Mint     bool   `json:"mint,omitempty"`  // import: claim number Claim is minted into the client cache by MintClaimSession (Tag, PeerAddr, ExtraValidCommands)
 	Claim    int    `json:"claim,omitempty"` // import: number of the claim (1, 2) imported through ImportClaimSession; 0 = Store + MapCommand of ordinal K
 }
 
@@ -1051,7 +1052,19 @@ func runHistory(h history) runOut {
 			addr, cmdStr := w.addrName[e.Addr], fmt.Sprint(e.Cmd)
 			var id string
 			lease := sessLease
-			if e.Claim > 0 {
+			if e.Claim > 0 && e.Mint {
+				// the mint side: MintClaimSession with Tag + PeerAddr + ExtraValidCommands files outbound routes
+				m, err := security.MintClaimSession(w.cache, security.MintClaimOptions{
+					Sinful: fmt.Sprintf("<10.7.7.%d:9618?sock=startd_55_%d>", e.Claim, e.Claim), Birthdate: 1700000000, SequenceNum: e.Claim,
+					PeerAddr: addr, Tag: e.Tag, ExtraValidCommands: []int{e.Cmd}, Lifetime: sessDuration * time.Second})
+				if err != nil {
+					fail("import-failed", "%s: MintClaimSession: %v", what, err)
+					continue
+				}
+				id, lease = m.SessionID(), 0
+				w.ord(id)
+				out.counts["import-mint"]++
+			} else if e.Claim > 0 {
 				sid, err := security.ImportClaimSession(w.cache, w.claimID(e.Claim), security.ClaimSessionOptions{
 					PeerAddr: addr, Tag: e.Tag, Duration: sessDuration * time.Second, ExtraValidCommands: []int{e.Cmd}})
 				if err != nil {
@@ -1209,6 +1222,7 @@ func randEvent(c *core.Ctx, pos int, prev []event) event {
 		e := event{Kind: "import", K: 1 + r.Intn(2), Tag: tags[r.Intn(3)], Addr: r.Intn(2), Cmd: cmds[r.Intn(3)]}
 		if r.Intn(2) == 0 {
 			e.Claim = 1 + r.Intn(2)
+			e.Mint = r.Intn(2) == 0
 		}
 		return e
 	default:
@@ -1322,6 +1336,9 @@ func gen(c *core.Ctx) error {
 		{H("tagA", 0, 421), {Kind: "tick", Dt: 3000}, {Kind: "lne", K: 1}, {Kind: "invalexp"}, {Kind: "import", K: 1, Tag: "tagB", Addr: 1, Cmd: 9}, H("tagA", 0, 421), H("tagB", 1, 9), H("tagA", 0, 60007)},
 		{H("", 0, 421), {Kind: "tick", Dt: 3000}, {Kind: "hs", Tag: "tagB", Addr: 1, Cmd: 9, Mode: "ok", Via: "peername", Explicit: 1}, {Kind: "invalexp"}, {Kind: "import", K: 1, Tag: "tagA", Addr: 0, Cmd: 60007}, H("", 0, 421), H("", 0, 60007), H("tagA", 0, 60007)},
 		{H("tagA", 0, 421), H("tagB", 1, 60007), {Kind: "tick", Dt: 3000}, {Kind: "lne", K: 1}, {Kind: "invalexp"}, {Kind: "invalexp"}, {Kind: "import", K: 1, Tag: "", Addr: 0, Cmd: 421}, H("tagA", 0, 60007), H("", 0, 421)},
+		// MintClaimSession with a tag, a peer address and commands: the routes are filed under that tag
+		{{Kind: "import", Claim: 1, Mint: true, Tag: "tagA", Addr: 0, Cmd: 421}, H("tagA", 0, 421), H("", 0, 421), H("tagB", 0, 421)},
+		{{Kind: "import", Claim: 2, Mint: true, Tag: "tagB", Addr: 1, Cmd: 9}, H("", 1, 9), H("tagB", 1, 9), {Kind: "import", Claim: 2, Mint: true, Tag: "", Addr: 1, Cmd: 60007}, H("tagB", 1, 9), H("", 1, 60007)},
 		// malformed ValidCommands announcements, then handshakes for command 0 and other never-declared commands
 		{{Kind: "announce", Tag: "tagA", Addr: 0, Valid: 0}, H("tagA", 0, 0), H("tagA", 0, 421), H("tagA", 0, 9)},
 		{{Kind: "announce", Tag: "", Addr: 1, Valid: 1}, H("", 1, 0), H("", 1, 60007)},
